@@ -95,11 +95,51 @@ class Decide:
         self.t0 = time.time()
         self.q0 = ex.stats['queries']
         self.p0 = ex.stats['paths']
-        self.failed = None
+        self._failed = None
         self.cross = cross
         self.cross_log = []
         self.nprops = 0
         self.failed_prop = None
+
+    # `failed` as seen by the monitors: only a violation stops further checking.  An inconclusive finding on one
+    # path (an abort, an undecided value) must not hide a violation found on another path afterwards -- a
+    # feasible, fully executed counterexample is a violation whatever else could not be explored -- so while
+    # the recorded finding is only 'inconclusive' the monitors see None and go on; a later violation replaces
+    # it, a later inconclusive does not.
+    @property
+    def failed(self):
+        return self._failed if (self._failed is not None and self._failed[0] == 'violated') else None
+
+    @failed.setter
+    def failed(self, v):
+        if v is None:
+            return
+        if v[0] == 'violated':
+            v = self._settle(v)         # a counterexample through a havocked value is only 'inconclusive'
+        if self._failed is None or (self._failed[0] != 'violated' and v[0] == 'violated'):
+            self._failed = v
+
+    def _settle(self, v):
+        kind, what, m, st = v
+        if st is None:
+            return v
+        tainted = set()
+        for c in st.pc:
+            for n in self.ex.consts_of(c):
+                if n.startswith(('hv!', 'uninit!')):
+                    tainted.add(n)
+        if m is not None:
+            for d_ in m.decls():
+                if d_.name().startswith(('hv!', 'uninit!')):
+                    tainted.add(d_.name())
+        if tainted and self.failed_prop is not None:
+            m2 = self._independent_of_uninit(st, self.failed_prop, tainted)
+            if m2 is not None:
+                return ('violated', what + ' (for every content of the fields no code initialises)', m2, st)
+        if tainted:
+            hv = sorted(set(k for kind_, *rest in st.notes if kind_ == 'havoc' for k in rest))
+            return ('inconclusive', 'counterexample depends on unmodelled calls %s (values %s): %s' % (hv[:6], sorted(tainted)[:4], what), None, st)
+        return v
 
     def _independent_of_uninit(self, st, prop, tainted):
         """True (with a model) iff the violation stands whatever the never-initialised fields hold: the monitor
@@ -153,8 +193,9 @@ class Decide:
             self.failed = ('inconclusive', 'solver returned unknown on: ' + what, None, st)
             return None
         if r == 'sat':
-            self.failed = ('violated', what, m, st)
             self.failed_prop = prop
+            self.failed = ('violated', what, m, st)
+            self.failed_prop = None
             return m
         return None
 
@@ -181,34 +222,13 @@ class Decide:
         o.wall_s = time.time() - self.t0
         o.queries = self.ex.stats['queries'] - self.q0
         o.paths = self.ex.stats['paths'] - self.p0
-        if self.failed is not None and self.failed[0] == 'violated' and self.failed[3] is not None:
-            # a counterexample that runs through an unmodelled (havocked) call or an uninitialised read is not
-            # evidence against the code: report it as inconclusive, naming the call
-            st = self.failed[3]
-            tainted = set()
-            for c in st.pc:
-                for n in self.ex.consts_of(c):
-                    if n.startswith(('hv!', 'uninit!')):
-                        tainted.add(n)
-            if self.failed[2] is not None:
-                for d_ in self.failed[2].decls():
-                    if d_.name().startswith(('hv!', 'uninit!')):
-                        tainted.add(d_.name())
-            if tainted and self.failed_prop is not None:
-                m2 = self._independent_of_uninit(st, self.failed_prop, tainted)
-                if m2 is not None:
-                    self.failed = ('violated', self.failed[1] + ' (for every content of the fields no code initialises)', m2, st)
-                    tainted = set()
-            if tainted:
-                hv = sorted(set(k for kind, *rest in st.notes if kind == 'havoc' for k in rest))
-                self.failed = ('inconclusive', 'counterexample depends on unmodelled calls %s (values %s): %s' % (hv[:6], sorted(tainted)[:4], self.failed[1]), None, st)
-        if self.failed is None:
+        if self._failed is None:
             o.status = 'holds'
             o.detail = '%d property queries unsat on %d paths' % (self.nprops, o.paths)
             if self.cross_log:
                 o.detail += '; cross-checked by ' + ','.join(sorted(set(n for _, _, cc in self.cross_log for n, v in cc if v in ('sat', 'unsat'))))
         else:
-            kind, what, m, st = self.failed
+            kind, what, m, st = self._failed
             o.status = kind
             o.detail = what
-        return self.failed
+        return self._failed
